@@ -5,6 +5,19 @@ pub(crate) mod verif_kani {
     use super::*;
     pub(crate) use crate::opaque::slab_layout::verif_kani::{layout_wf, wf_layout};
 
+    /// Kani's compiler aborts on the `catch_unwind` intrinsic and does not model unwinding at all; harnesses that
+    /// reach `Slab::drop` replace `std::panic::catch_unwind` by a plain call (listed as an assumption).
+    pub(crate) fn catch_unwind_stub<F: FnOnce() -> R + std::panic::UnwindSafe, R>(f: F) -> thread::Result<R> {
+        Ok(f())
+    }
+
+    pub(crate) fn resume_unwind_stub(_payload: Box<dyn Any + Send>) -> ! {
+        panic!("resume_unwind (stub): a destructor panicked")
+    }
+    pub(crate) fn panicking_stub() -> bool {
+        false
+    }
+
     // ---------------------------------------------------------------- payload types
     pub(crate) trait Payload: Copy + PartialEq + kani::Arbitrary + 'static {}
     impl Payload for u8 {}
@@ -227,7 +240,7 @@ pub(crate) mod verif_kani {
         assert!(slab_wf::<CAP>(&slab), "C01.remove_wf_after");
         assert!(!slab.is_full() && slab.is_empty() == (pre.count == 1), "C02.remove_flags");
         kani::cover!(pre.count == CAP);
-        kani::cover!(k == 0 && CAP > 1 && pre.occ[CAP - 1]);
+        kani::cover!(CAP == 1 || (k == 0 && pre.occ[CAP - 1]));
         mem::forget(slab);
     }
 
@@ -485,41 +498,56 @@ pub(crate) mod verif_kani {
             }
         };
     }
+    macro_rules! inst_nounwind {
+        ($name:ident, $unwind:expr, $body:expr) => {
+            #[kani::proof]
+            #[kani::unwind($unwind)]
+            #[kani::stub(crate::opaque::slab::catch_unwind, crate::opaque::slab::verif_kani::catch_unwind_stub)]
+            #[kani::stub(crate::opaque::slab::resume_unwind, crate::opaque::slab::verif_kani::resume_unwind_stub)]
+            #[kani::stub(std::thread::panicking, crate::opaque::slab::verif_kani::panicking_stub)]
+            fn $name() {
+                $body
+            }
+        };
+    }
 
     inst!(slab_new_contract_cap3_u32, 5, new_contract::<3, u32>());
-    inst!(slab_new_contract_cap2_a16, 5, new_contract::<2, A16>());
+    inst!(slab_new_contract_cap2_a16, 18, new_contract::<2, A16>());
 
     inst!(slab_insert_contract_cap1_u8, 4, insert_contract::<1, u8>());
     inst!(slab_insert_contract_cap2_u32, 5, insert_contract::<2, u32>());
     inst!(slab_insert_contract_cap3_u32, 6, insert_contract::<3, u32>());
-    inst!(slab_insert_contract_cap2_a16, 5, insert_contract::<2, A16>());
+    inst!(slab_insert_contract_cap2_a16, 18, insert_contract::<2, A16>());
     inst!(slab_insert_contract_cap4_u32, 7, insert_contract::<4, u32>());
 
     inst!(slab_remove_contract_cap1_u8, 4, remove_contract::<1, u8>());
     inst!(slab_remove_contract_cap2_u32, 5, remove_contract::<2, u32>());
     inst!(slab_remove_contract_cap3_u32, 6, remove_contract::<3, u32>());
-    inst!(slab_remove_contract_cap2_a16, 5, remove_contract::<2, A16>());
+    inst!(slab_remove_contract_cap2_a16, 18, remove_contract::<2, A16>());
     inst!(slab_remove_contract_cap4_u32, 7, remove_contract::<4, u32>());
 
     inst!(slab_remove_unpin_contract_cap2_u32, 5, remove_unpin_contract::<2, u32>());
     inst!(slab_remove_unpin_contract_cap3_u32, 6, remove_unpin_contract::<3, u32>());
-    inst!(slab_remove_unpin_contract_cap2_a16, 5, remove_unpin_contract::<2, A16>());
+    inst!(slab_remove_unpin_contract_cap2_a16, 18, remove_unpin_contract::<2, A16>());
 
     inst!(slab_object_ptr_contract_cap3_u32, 6, object_ptr_contract::<3, u32>());
-    inst!(slab_object_ptr_contract_cap2_a16, 5, object_ptr_contract::<2, A16>());
+    inst!(slab_object_ptr_contract_cap2_a16, 18, object_ptr_contract::<2, A16>());
     inst!(slab_object_ptr_contract_cap3_u8, 6, object_ptr_contract::<3, u8>());
 
     inst!(slab_remove_drops_once_cap2, 5, remove_drops_once::<2>(slab_wf_at_drop_2));
     inst!(slab_remove_drops_once_cap3, 6, remove_drops_once::<3>(slab_wf_at_drop_3));
     inst!(slab_remove_unpin_never_drops_cap2, 5, remove_unpin_never_drops::<2>());
-    inst!(slab_drop_drops_each_once_cap2, 5, drop_slab_drops_each_once::<2>());
-    inst!(slab_drop_drops_each_once_cap3, 6, drop_slab_drops_each_once::<3>());
-    inst!(slab_drop_policy_empty_ok_cap2, 5, drop_policy_forbidding_panics_iff_nonempty_empty_case::<2>());
+    inst_nounwind!(slab_drop_drops_each_once_cap2, 5, drop_slab_drops_each_once::<2>());
+    inst_nounwind!(slab_drop_drops_each_once_cap3, 6, drop_slab_drops_each_once::<3>());
+    inst_nounwind!(slab_drop_policy_empty_ok_cap2, 5, drop_policy_forbidding_panics_iff_nonempty_empty_case::<2>());
 
     // Expected to FAIL exactly the repository's own "dropped a non-empty slab" assertion (unit.toml: expect_fail);
     // if drop() ever returns normally for a non-empty slab the marker below fails as well and is reported.
     #[kani::proof]
     #[kani::unwind(5)]
+    #[kani::stub(crate::opaque::slab::catch_unwind, crate::opaque::slab::verif_kani::catch_unwind_stub)]
+    #[kani::stub(crate::opaque::slab::resume_unwind, crate::opaque::slab::verif_kani::resume_unwind_stub)]
+    #[kani::stub(std::thread::panicking, crate::opaque::slab::verif_kani::panicking_stub)]
     fn slab_drop_policy_nonempty_panics_cap2() {
         drop_policy_forbidding_panics_nonempty_case::<2>();
         assert!(false, "C02.drop_policy_nonempty_must_panic: drop() of a non-empty MustNotDropContents slab returned normally");
